@@ -184,7 +184,7 @@ fn note(k: Kind, id: i64, src: i64) -> bool {
         if let Some((fk, n)) = r.fault {
             if fk == k && r.seen[ki] == n && !r.fired {
                 r.fired = true;
-                r.log.push(Cb { k: Kind::Panic, id, src });
+                r.log.push(Cb { k: Kind::Panic, id, src: k as i64 });
                 return true;
             }
         }
@@ -202,7 +202,7 @@ fn pre_fault(k: Kind, id: i64, src: i64) -> bool {
             if fk == k && r.seen[ki] + 1 == n && !r.fired {
                 r.seen[ki] += 1;
                 r.fired = true;
-                r.log.push(Cb { k: Kind::Panic, id, src });
+                r.log.push(Cb { k: Kind::Panic, id: if id != 0 { id } else { src }, src: k as i64 });
                 return true;
             }
         }
